@@ -49,7 +49,8 @@ def namelist_stub(cx):
 
 
 namelist_stub.modifies = ()
-SK_FRAME = ['_kexinit_sent', '_session_id', '_strict_kex', '_send_seq', '_recv_seq', '_auth_complete',
+# (_send_seq is NOT framed: the KEXINIT that goes out advances it - it is in `modifies` through send_packet's contract)
+SK_FRAME = ['_kexinit_sent', '_session_id', '_strict_kex', '_recv_seq', '_auth_complete',
             '_rekey_bytes', '_rekey_seconds']
 SK_REF_FRAME = ['_kex', '_recv_encryption', '_send_encryption', '_next_recv_encryption', '_auth']
 
@@ -82,33 +83,50 @@ def sk_frame(c):
     return z3.And([c.new(f) == c.old(f) for f in SK_FRAME] + [c.eq(c.oldv(f), c.newv(f)) for f in SK_REF_FRAME])
 
 
+def _c11():
+    from . import c11
+    return c11
+
+
+def sk_send_inv(c, old=True):
+    return _c11().send_inv(c, old)
+
+
+def sk_rollover(c):
+    """send_packet(MSG_KEXINIT) raised: sequence rollover before the first keys (see send_packet)"""
+    return z3.And(z3.Not(is_set(c, '_send_encryption')), c.new('_send_seq') == 0)
+
+
 send_kexinit = finish(Spec(
     'C11', 'connection', 'SSHConnection._send_kexinit', self_class='SSHConnection', classes=SK_CLASSES,
     stubs=dict(ROLE_STUBS, **{'expand_kex_algs': ret('seq[bytes]', 'kex_algs'),
                               'self._get_extra_kex_algs': ret('seq[bytes]', 'extra_kex_algs'),
-                              'NameList': namelist_stub, 'self.send_packet': noop('send_packet')}),
+                              'NameList': namelist_stub,
+                              # the KEXINIT goes out through the verified contract of send_packet (c11.py)
+                              'self.send_packet': contract_stub(lambda: _c11().send_packet)}),
+    requires=lambda c: sk_send_inv(c),
     ensures=[('exchange-started:kex_complete-false,rekey-counters-reset', sk_counters),
+             # the same without reference to the call log (what callers may rely on)
+             ('exchange-started', lambda c: z3.And(z3.Not(c.new('_kex_complete')), c.new('_rekey_bytes_sent') == 0)),
              ('one-KEXINIT-sent-and-recorded-as-our-own', sk_wire),
-             ('does-not-own-kexinit_sent;no-other-phase-state-touched', sk_frame)],
+             ('does-not-own-kexinit_sent;no-other-phase-state-touched', sk_frame),
+             ('KEXINIT-is-never-queued', lambda c: c.new('_deferred_packets') == c.old('_deferred_packets'))],
+    always=[('class-inv', lambda c: sk_send_inv(c, old=False))],
     raises={'AssertionError': lambda c: z3.And(c.old('_gss_kex'), z3.Not(is_set(c, '_gss')),
-                                               z3.BoolVal(not c.calls('send_packet')))},
-    modifies=['_kex_complete', '_rekey_bytes_sent', '_rekey_time', '_client_kexinit', '_server_kexinit']))
+                                               z3.BoolVal(not c.calls('send_packet'))),
+            'ProtocolError': sk_rollover, 'CompressionError': True},
+    modifies=['_kex_complete', '_rekey_bytes_sent', '_rekey_time', '_client_kexinit', '_server_kexinit',
+              '_send_seq', '_kexinit_sent', '_deferred_packets']))
 
 
 # ------------------------------------------------------------------------------------------------ _process_kexinit
-# callee view of _send_kexinit for the call in _process_kexinit: the contract proved above
-send_kexinit_callee = Spec(
-    'C11x', 'connection', 'SSHConnection._send_kexinit', self_class='SSHConnection',
-    ensures=[('kex_complete-false', lambda c: z3.Not(c.new('_kex_complete'))),
-             ('rekey-bytes-reset', lambda c: c.new('_rekey_bytes_sent') == 0)],
-    modifies=['_kex_complete', '_rekey_bytes_sent', '_rekey_time', '_client_kexinit', '_server_kexinit'])
-Spec.registry.remove(send_kexinit_callee)
-
-PK_FIELDS = dict(H_CLASSES['SSHConnection'], **{'_kex_complete': 'bool', '_rekey_bytes_sent': 'int',
-                                                '_rekey_time': 'int'})
-PK_CLASSES = dict(H_CLASSES, SSHConnection=PK_FIELDS)
-PK_STUBS = dict(ROLE_STUBS, **{'self._send_kexinit': contract_stub(lambda: send_kexinit_callee),
+# _send_kexinit as called from _process_kexinit: the contract proved above (contract_stub)
+PK_FIELDS = dict(SK_FIELDS, **H_CLASSES['SSHConnection'])
+PK_CLASSES = dict(SK_CLASSES, **dict(H_CLASSES, SSHConnection=PK_FIELDS))
+PK_STUBS = dict(ROLE_STUBS, **{'self._send_kexinit': contract_stub(lambda: send_kexinit),
                                'self._gss.reset': noop(), 'expand_kex_algs': ret('seq[bytes]', 'local_kex_algs')})
+PK_RAISES = {'AssertionError': lambda c: z3.And(c.old('_gss_kex'), z3.Not(is_set(c, '_gss'))),
+             'CompressionError': True}
 
 
 def pk_answered(c):
@@ -120,12 +138,14 @@ def pk_answered(c):
 kexinit_answer = finish(HSpec(
     'C11', 'connection', 'SSHConnection._process_kexinit', self_class='SSHConnection', params=KI_PARAMS,
     classes=PK_CLASSES, truthy=PACKET_TRUTHY, inline=KI_INLINE, stubs=PK_STUBS, cases=KI_CASES, setup=ki_setup,
-    region=lambda fn: fn.body[ki_cut0(fn):ki_cut(fn)],
+    region=lambda fn: fn.body[ki_cut0(fn):ki_cut(fn)], requires=lambda c: sk_send_inv(c),
     ensures=[('own-KEXINIT-sent-iff-not-yet-sent-for-this-exchange', pk_answered),
              ('afterwards:our-KEXINIT-for-the-NEXT-exchange-has-not-been-sent', lambda c: z3.Not(c.new('_kexinit_sent'))),
              ('session-id-untouched', lambda c: c.new('_session_id') == c.old('_session_id'))],
     always=[('at-most-one-KEXINIT-of-ours', lambda c: z3.BoolVal(len(c.calls('_send_kexinit')) <= 1))],
-    raises={'ProtocolError': lambda c: z3.BoolVal(not c.calls('_send_kexinit'))}))
+    # (the strict-kex first-packet rule is checked before our KEXINIT is sent; the only ProtocolError after that is
+    # the sequence rollover of send_packet)
+    raises=dict(PK_RAISES, ProtocolError=lambda c: z3.Or(z3.BoolVal(not c.calls('_send_kexinit')), sk_rollover(c)))))
 kexinit_answer.tag = 'record'
 kexinit_answer.no_replay = True
 
@@ -139,7 +159,7 @@ kexinit_second = finish(HSpec(
         is_set(c, '_kex'), z3.And(z3.BoolVal(c.raised == 'ProtocolError' and not c.calls('_send_kexinit')),
                                   pkt(c, new=True)['_idx'].z == 1,
                                   c.new('_kexinit_sent') == c.old('_kexinit_sent'))))],
-    raises={'ProtocolError': lambda c: is_set(c, '_kex')}))
+    raises=dict(PK_RAISES, ProtocolError=lambda c: is_set(c, '_kex'))))
 kexinit_second.tag = 'already-running'
 kexinit_second.no_replay = True
 
